@@ -20,7 +20,7 @@ EXPLANATION = (
     "in the same block (and vice versa), and whole-row stores are empty_line(); (5) PROG: every while loop of the emulator assigns its driving variable on every back edge."
     ' Added after seed round 3: (11) every path through push_cursor stores is_rotten_cursor; (12) the reverse and forward arms of linefeed test mirrored comparisons.'
     ' Round 4: C15.4 follows locals bound to a grid row (`line = self.term[y]`); (13) every scroll decision of linefeed / push_cursor compares the row with the scroll-region margin.'
-    ' Round-4 triage: (14) scroll / IL / DL pop before they insert and IL / DL return outside the scrolling region; (15) erase calls pass inclusive cursor coordinates; (16) the canvas cursor is built from constrained coordinates; (17) counting loops driven by an escape-sequence parameter are clamped with min() first; (18) SGR state: csi_set_attr() undoes exactly the colour adjustment sgi_to_attrspec() applies (bold->bright, foreground only) and no SGR parameter is interpreted by fixed position; (19) lines leaving the scrollback are cut / padded to the current width and shortening the scrollback re-clamps scrolling_up. Round 5: (18) the undo also repeats the colour-depth test of the mapping; (20) no slice bound of TermCanvas is an unclamped difference of runtime quantities.'
+    ' Round-4 triage: (14) scroll / IL / DL pop before they insert and IL / DL return outside the scrolling region; (15) erase calls pass inclusive cursor coordinates; (16) the canvas cursor is built from constrained coordinates; (17) counting loops driven by an escape-sequence parameter are clamped with min() first; (18) SGR state: csi_set_attr() undoes exactly the colour adjustment sgi_to_attrspec() applies (bold->bright, foreground only) and no SGR parameter is interpreted by fixed position; (19) lines leaving the scrollback are cut / padded to the current width and shortening the scrollback re-clamps scrolling_up. Round 5: (18) the undo also repeats the colour-depth test of the mapping; (20) no slice bound of TermCanvas is an unclamped difference of runtime quantities. Round-5 triage: (13, sharpened) the region scrolls under equality with the margin, in push_cursor as in linefeed; (21) SHADOW - no loop target clobbers a live local; (22) the fixed-length palette sequence is complete with the 7th buffered character; (23) ED corners ignore the scrolling margins.'
 )
 NOT_DECIDED = (
     "Index-bounds safety of every self.term[y][x] access (IndexError is outside the exception model; only the clamp discipline is decided), width normalisation of rows returned "
@@ -525,6 +525,9 @@ def rule_scroll_margin(ctx: Ctx) -> RuleResult:
             want = "scrollregion_start" if rev else "scrollregion_end"
             guards = [t for t in cfg.nodes if t.kind == "test" and cn not in ExcEngine._reach_without_edge(cfg, t, "T") and isinstance(t.ast, ast.Compare)]
             rr.inst(f"{short(fi)}:{norm(call, 30)}", True, {"function": short(fi), "scroll": norm(call, 30), "guards": [norm(g.ast, 50) for g in guards]})
+            exact = [g for g in guards if want in ast.unparse(g.ast) and len(g.ast.ops) == 1 and isinstance(g.ast.ops[0], ast.Eq)]
+            if any(want in ast.unparse(g.ast) for g in guards) and not exact:
+                rr.add(finding("SIB", fi, cn.stmt, f"`{norm(call, 30)}` is decided by {[norm(g.ast, 40) for g in guards]}: the region scrolls when the row *is* the margin (`y == self.{want}`); an inequality also scrolls it from a row outside the region ({'below the bottom' if not rev else 'above the top'} margin), where the cursor only moves - linefeed() makes exactly that distinction", construct=f"scroll decided by an inequality with {want}"))
             if not any(want in ast.unparse(g.ast) for g in guards):
                 rr.add(finding("SIB", fi, cn.stmt, f"`{norm(call, 30)}` is decided by {[norm(g.ast, 40) for g in guards] or 'no comparison'}, not by a comparison with self.{want}: with a scroll region smaller than the screen (CSI t;b r) text that wraps on the margin leaves the region instead of scrolling it, while linefeed scrolls at the margin", construct=f"scroll not decided against {want}"))
     return rr
@@ -781,6 +784,50 @@ def rule_negative_slice(ctx: Ctx) -> RuleResult:
     return rr
 
 
+def rule_shadowed_locals(ctx: Ctx) -> RuleResult:
+    from ..rules import shadow
+
+    return shadow.run_shadow(ctx.p, "C15.21", [VT], floor=15, description="no `for` target in vterm.py clobbers a local that is read after the loop with its earlier meaning (resize(): the saved cursor row)")
+
+
+def rule_osc_palette_length(ctx: Ctx) -> RuleResult:
+    """parse_escape() sees one character at a time and tests the buffer *before* appending the character.  A
+    fixed-length sequence of n characters (ESC ] P nrrggbb: 'P' + 7 hex digits = 8) is therefore complete when the
+    buffer holds n - 1 of them; a test against n fires one character late and swallows the character that follows."""
+    p = ctx.p
+    rr = RuleResult("BOUND", "C15.22", "the fixed-length palette sequence (P + 7 digits) is recognised when the buffer holds 7 characters and the 8th arrives", floor=1)
+    fi = p.func(f"{VT}.TermCanvas.parse_escape")
+    tests = [t for t in fi.own_nodes() if isinstance(t, ast.If) and 'startswith(b"P")' in ast.unparse(t.test).replace("'", '"')]
+    if not tests:
+        raise AnalysisError("parse_escape: the palette-sequence test (escbuf.startswith(b'P') ...) was not found")
+    for t in tests:
+        lens = [c for c in ast.walk(t.test) if isinstance(c, ast.Compare) and isinstance(c.left, ast.Call) and callee_name(c.left) == "len" and isinstance(c.comparators[0], ast.Constant)]
+        for c in lens:
+            arg = c.left.args[0]
+            includes_char = isinstance(arg, ast.BinOp)  # len(self.escbuf + char)
+            want = 8 if includes_char else 7
+            rr.inst(norm(c, 40), True, {"test": norm(c, 50), "expected_length": want})
+            if not isinstance(c.ops[0], ast.Eq) or c.comparators[0].value != want:
+                rr.add(finding("BOUND", fi, c, f"`{norm(c, 40)}`: the buffer is tested before the current character is appended, so the 8-character sequence P nrrggbb is complete when it holds 7; with {c.comparators[0].value} the test fires one character late and the character after the sequence is swallowed", construct=f"palette sequence length {norm(c, 40)}"))
+    return rr
+
+
+def rule_erase_display_absolute(ctx: Ctx) -> RuleResult:
+    """ED (erase in display) works on the whole grid whatever the scrolling margins are; erase() clamps its corners to
+    the scrolling region in origin mode unless a corner carries the ignore flag.  Every corner csi_erase_display()
+    passes therefore carries it (a 3-tuple ending in True)."""
+    p = ctx.p
+    rr = RuleResult("SIB", "C15.23", "csi_erase_display passes erase() corners that ignore the scrolling margins", floor=2)
+    fi = p.func(f"{VT}.TermCanvas.csi_erase_display")
+    for c in [c for c in fi.own_nodes() if isinstance(c, ast.Call) and isinstance(c.func, ast.Attribute) and c.func.attr == "erase"]:
+        for a in c.args:
+            ok = isinstance(a, ast.Tuple) and len(a.elts) in (2, 3) and isinstance(a.elts[-1], ast.Constant) and a.elts[-1].value is True and (len(a.elts) == 3 or isinstance(a.elts[0], ast.Starred))
+            rr.inst(f"{norm(c, 30)}: {norm(a, 30)}", True, {"corner": norm(a, 50), "ignores_margins": ok})
+            if not ok:
+                rr.add(finding("SIB", fi, c, f"`{norm(c, 70)}` passes the corner `{norm(a, 40)}` without the ignore-scrolling flag: in origin mode erase() clamps it to the scrolling region, so ED 0 stops at the bottom margin and ED 1 starts at the top margin while ED 2 clears the whole screen", construct=f"erase corner {norm(a, 40)} limited by the margins"))
+    return rr
+
+
 def run(ctx: Ctx):
     p = ctx.p
     tc = f"{VT}.TermCanvas"
@@ -809,6 +856,9 @@ def run(ctx: Ctx):
         rule_sgr_state(ctx),
         rule_scrollback(ctx),
         rule_negative_slice(ctx),
+        rule_shadowed_locals(ctx),
+        rule_osc_palette_length(ctx),
+        rule_erase_display_absolute(ctx),
     ]
     return out
 
@@ -817,6 +867,10 @@ from ..mutants import Mut  # noqa: E402
 
 _V = "urwid/vterm.py"
 MUTANTS = [
+    Mut("resize-loop-variable-clobbers-cursor-row", _V, "TermCanvas.resize", "            for row in range(self.height):\n                self.term[row] += [self.empty_char()] * (width - self.width)", "            for y in range(self.height):\n                self.term[y] += [self.empty_char()] * (width - self.width)", "SHADOW|vterm.TermCanvas.resize"),
+    Mut("autowrap-scrolls-from-below-the-region", _V, "TermCanvas.push_cursor", "                    if y >= self.height - 1 > self.scrollregion_end:\n                        pass\n                    elif y == self.scrollregion_end:\n                        self.scroll()", "                    if y >= self.scrollregion_end:\n                        self.scroll()", "SIB|vterm.TermCanvas.push_cursor|scroll decided by an inequality"),
+    Mut("palette-sequence-one-late", _V, "TermCanvas.parse_escape", "len(self.escbuf) == 7:", "len(self.escbuf) == 8:", "BOUND|vterm.TermCanvas.parse_escape"),
+    Mut("ed0-limited-by-margins", _V, "TermCanvas.csi_erase_display", "self.erase((*self.term_cursor, True), (self.width - 1, self.height - 1, True))", "self.erase(self.term_cursor, (self.width - 1, self.height - 1))", "SIB|vterm.TermCanvas.csi_erase_display"),
     Mut("sgr-fg-undo-without-depth-test", _V, "TermCanvas.csi_set_attr", "if fg >= 8 and self.attrspec.colors == 16 and self.attrspec.bold:", "if fg >= 8 and self.attrspec.bold:", "SIB|vterm.TermCanvas.csi_set_attr|fg: undo without the mapping's colour-depth test"),
     Mut("scrollback-view-negative-slice", _V, "TermCanvas.content", "            buf = [*self.scrollback_buffer, *self.term]\n            for line in buf[-(self.height + self.scrolling_up) : -self.scrolling_up]:", "            first = len(self.scrollback_buffer) - self.scrolling_up\n            for line in (*list(self.scrollback_buffer)[first : first + self.height], *self.term[: self.height - self.scrolling_up]):", "BOUND|vterm.TermCanvas.content"),
     Mut("autowrap-clears-pending-wrap-blindly", _V, "TermCanvas.push_cursor", "                self.is_rotten_cursor = x >= self.width\n", "                self.is_rotten_cursor = False\n", "PASS|vterm.TermCanvas.push_cursor|pending wrap cleared"),
@@ -831,10 +885,10 @@ MUTANTS = [
     Mut("ich-count-unclamped", "urwid/vterm.py", "TermCanvas.insert_chars", "        # more than the rest of the row cannot be shifted in\n        chars = min(chars, self.width - x)\n", "", "BOUND|vterm.TermCanvas.insert_chars"),
     Mut("cup-keeps-pending-wrap", "urwid/vterm.py", "TermCanvas.move_cursor", "        # an explicit cursor movement cancels a pending wrap\n        self.is_rotten_cursor = False\n", "", "PASS|vterm.TermCanvas.move_cursor"),
     Mut("canvas-cursor-unconstrained", "urwid/vterm.py", "TermCanvas.set_term_cursor", "        self.term_cursor = x, y = self.constrain_coords(x, y)", "        self.term_cursor = self.constrain_coords(x, y)", "POSBOUND|vterm.TermCanvas.set_term_cursor"),
-    Mut("ed1-stops-before-cursor", "urwid/vterm.py", "TermCanvas.csi_erase_display", "self.erase((0, 0), self.term_cursor)", "self.erase((0, 0), (self.term_cursor[0] - 1, self.term_cursor[1]))", "SIB|vterm.TermCanvas.csi_erase_display"),
+    Mut("ed1-stops-before-cursor", "urwid/vterm.py", "TermCanvas.csi_erase_display", "self.erase((0, 0, True), (*self.term_cursor, True))", "self.erase((0, 0, True), (self.term_cursor[0] - 1, self.term_cursor[1], True))", "SIB|vterm.TermCanvas.csi_erase_display"),
     Mut("il-inserts-before-pop", "urwid/vterm.py", "TermCanvas.insert_lines", "            self.term.pop(self.scrollregion_end)\n            self.term.insert(row, self.empty_line())", "            self.term.insert(row, self.empty_line())\n            self.term.pop(self.scrollregion_end)", "ORDER|vterm.TermCanvas.insert_lines"),
     Mut("dl-outside-region", "urwid/vterm.py", "TermCanvas.remove_lines", "        if not self.scrollregion_start <= row <= self.scrollregion_end:\n            # outside the scrolling region: ignored\n            return\n", "", "ORDER|vterm.TermCanvas.remove_lines"),
-    Mut("autowrap-scrolls-at-screen-bottom", "urwid/vterm.py", "TermCanvas.push_cursor", "                    if y >= self.scrollregion_end:", "                    if y >= self.height - 1:", "SIB|vterm.TermCanvas.push_cursor"),
+    Mut("autowrap-scrolls-at-screen-bottom", "urwid/vterm.py", "TermCanvas.push_cursor", "                    elif y == self.scrollregion_end:\n                        self.scroll()\n                    else:\n                        y += 1\n\n                    x = 1", "                    elif y == self.height - 1:\n                        self.scroll()\n                    else:\n                        y += 1\n\n                    x = 1", "SIB|vterm.TermCanvas.push_cursor"),
     Mut("dch-by-slice-overpads", "urwid/vterm.py", "TermCanvas.remove_chars", "        while chars > 0:\n            self.term[y].pop(x)\n            self.term[y].append(self.empty_char())\n            chars -= 1", "        line = self.term[y]\n        del line[x : x + chars]\n        line.extend([self.empty_char()] * chars)", "PAIR|vterm.TermCanvas.remove_chars"),
     Mut("rotten-flag-kept-at-last-column", "urwid/vterm.py", "TermCanvas.push_cursor", "            if x + 1 < self.width:\n                x += 1\n\n            self.is_rotten_cursor = False", "            if x + 1 < self.width:\n                x += 1\n                self.is_rotten_cursor = False\n", "PASS|vterm.TermCanvas.push_cursor"),
     Mut("reverse-linefeed-above-region-scrolls", "urwid/vterm.py", "TermCanvas.linefeed", "elif y == self.scrollregion_start:", "elif y <= self.scrollregion_start:", "SIB|vterm.TermCanvas.linefeed"),
